@@ -180,7 +180,7 @@ impl<'a> PrettyPrinter<'a> {
                     } else {
                         ctx
                     };
-                    self.convert_expr(ctx, expr)
+                    self.convert_embedded_expr(ctx, expr)
                 } else if is_comment_node(node) {
                     self.convert_comment(ctx, node)
                 } else {
